@@ -14,6 +14,7 @@ import Tv.Spec.C18Spec
                        per format — the chrono parameter of the model, supplied by the harness
   * `dt_total ..`      `T` | `P`
   * `dt_rt u=.. v=.. f=<0..10|d> cdt=.. cd=..` format then parse; spec: `v` floored to the format's resolution
+  * `dt_rtl u=.. v=.. f=<0..10> cdt=.. cd=..` format with listed rule `f`, parse with the format list
   * `time_parse s=.. [f=..] ct=..`  `Time::parse`; spec for strict `HH:MM:SS[.f]` texts
   * `time_total ..`    `T` | `P`
 -/
@@ -105,6 +106,27 @@ def c18 (fn : String) (r : Req) : Option (String × String) :=
       match Spec.rtExpected v step with
       | some x => s!"V:{x}"
       | none => "E:range")
+  | "dt_rtl" =>
+    -- format with the listed rule `f`, parse with the whole format list (`FromStr` / `parse(s, None)`):
+    -- the instant floored to the format's resolution must come back whenever the text is unambiguous,
+    -- i.e. every listed rule that chrono accepts for it yields that same instant
+    let u := c18Unit (r.str "u" "ns")
+    let v := r.int "v"
+    let fmt := timeRuleVec.getD (r.nat "f") ""
+    let step := Spec.fmtStep u.perSec fmt
+    let ch := c18Chrono r timeRuleVec
+    let spec :=
+      if !Spec.rtApplies fmt (v / u.perSec) then "-" else
+      match Spec.rtExpected v step with
+      | none => "-"
+      | some x =>
+        let agree := timeRuleVec.all fun f =>
+          match tryFmt ch f with
+          | none => true
+          | some inst => decide (fromCr .repaired u inst = .ok x)
+        let any := timeRuleVec.any fun f => (tryFmt ch f).isSome
+        if agree && any then s!"V:{x}" else "-"
+    some (c18DtTok (dtParse .repaired u ch none), spec)
   | "time_parse" =>
     let spec := if r.get "f" |>.isSome then "-" else
       match Spec.timeExpected (c18Chars r "s") with
